@@ -79,6 +79,15 @@ CLAIMED = {
          "maps; whole merges of generated fonts (shared/disjoint charsets, names that already look renamed, required features, shared scripts) are "
          "compared per character and per text through HarfBuzz with the first supporting input (testing). Layout index remapping is sweep-only.",
          "Rocq proof of naming uniqueness and first-wins cmap + correspondence + HarfBuzz merge sweeps"),
+ "C16": ("Theorems: numbering built with sorted(set(...)) depends only on the SET (permutation and multiplicity invariance: two strictly "
+         "sorted lists with the same elements are equal); the save state machine (tables written in order; a loaded table is compiled, which may "
+         "side-effect-load further tables; an unloaded one is copied raw) is IDEMPOTENT and independent of the history of accesses — under the "
+         "hypothesis that every side-effect-loaded table was loaded before or is byte-stable — and the unconditional statement is REFUTED by a "
+         "machine-checked two-table witness (known finding F13). The state machine is tied to TTFont.save by feeding it the OBSERVED write order, "
+         "preloaded set, side-effect loads and raw/recompiled bytes of corpus fonts and comparing its predicted first/second-save bytes per table; "
+         "pipelines are re-run in subprocesses under three PYTHONHASHSEED values; saves are checked not to disturb flags, dumps or later saves "
+         "(testing). F12 (hash-seed-dependent bsln/prop subsetting) repaired by a fix: commit.",
+         "Rocq proof of set-invariance and save idempotence/refutation + instrumented save correspondence + hash-seed subprocess sweeps"),
 }
 
 def main():
